@@ -9,11 +9,11 @@
   user's ledger grows by the returned roots (`ledger5`); when it raises, the `except` clause has
   given every temporary reference back and the ledger is unchanged.
 
-  Guards (`OpGuard5`).  `.loadJson f`: ANY content (a node line with the terminal's id `1` is
-  refused by the loader since F18); dynamic reordering is not enabled at that point
-  (`loadJson_false_any`), or it is and two variables are declared (`loadJson_false_any_dyn`: the
-  loader's `bdd.var` / `bdd.ite` calls may sift while it holds its shelf; with fewer than two
-  variables a request would make sifting raise — no theorem for the loader there).
+  Guards (`OpGuard5`).  `.loadJson f`: NONE — any content (a node line with the terminal's id `1`
+  is refused by the loader since F18), dynamic reordering enabled or not, any number of variables
+  (`loadJson_false_any_start`: with two variables the loader's `bdd.var` / `bdd.ite` calls may
+  sift while it holds its shelf; with fewer a request makes sifting raise, the loader fails and
+  releases — the switch is then off, as for every decorated call).
   `.copyVars src names`: the source order is a bijection, `names` is a permutation of its variables
   (else the model reports a schedule mismatch), and what the target declares BELOW the source's
   number of variables agrees with the source (`varsBelowB`) — as decidable checks.  This is the
@@ -33,6 +33,7 @@ import DDProofs.Reach4Start
 import DDProofs.LoadRejected
 import DDProofs.LoadJson2Dyn
 import DDProofs.LoadJson2Off
+import DDProofs.LoadJson2Few
 import DDProps.C11CopyVars
 open Std
 
@@ -110,7 +111,7 @@ theorem varsBelowB_of_sub {src t : Tbl} (h : varsSubB src t = true) : varsBelowB
 
 def OpGuard5 (m : Mgr) (ext : Nat → Nat) : UOp5 → Prop
   | .op o => OpGuard4 m ext o
-  | .loadJson _ => m.lastLen = none ∨ 2 ≤ m.nvars
+  | .loadJson _ => True
   | .copyVars src names => orderOKB src = true ∧ names.Perm src.vars.keys ∧ varsBelowB src m.tbl = true
 
 instance (m : Mgr) (ext : Nat → Nat) (op : UOp5) : Decidable (OpGuard5 m ext op) := by
@@ -157,12 +158,45 @@ theorem loadJson_step5_dyn (m : Mgr) (ext : Nat → Nat) (h : Good3 m ext) (f : 
   | ok roots => rw [hr] at hst; exact hst.good3 hroots
   | error e => rw [hr] at hst; exact hst.good3 hroots
 
+theorem Good3.loadStart {m : Mgr} {ext : Nat → Nat} (h : Good3 m ext) : LoadStart ext m :=
+  ⟨h.inv, h.order, h.exact, h.ctx, h.sched, fun r hr => by rw [h.roots] at hr; cases hr⟩
+
+/-- `load_json(load_order=False)` of ANY content from ANY good state — dynamic reordering enabled
+or not, any number of variables: the state is good for the new ledger, every held reference keeps
+its function by name; the switch is what it was, except that with fewer than two variables a
+request that fired has switched it off (`SwitchSafe`-style hypothesis as for the decorator) -/
+theorem loadJson_step5_any (m : Mgr) (ext : Nat → Nat) (h : Good3 m ext) (f : JsonFile) :
+    Good3 (loadJson f false m).2 (ledger5 (.loadJson f) m ext) ∧
+    Held2 ext m (loadJson f false m).2 ∧
+    ((m.lastLen.isSome = true → 2 ≤ m.nvars) →
+      (loadJson f false m).2.lastLen.isSome = m.lastLen.isSome) := by
+  have L := loadJson_false_any_start f m ext h.loadStart
+  have hroots : (loadJson f false m).2.roots = [] := L.roots.trans h.roots
+  refine ⟨?_, fun u hu => L.held u (Or.inr hu), fun hsafe => ?_⟩
+  · show Good3 _ (jsonLedger (loadJson f false m).1 ext)
+    unfold jsonLedger
+    have hst := L.state
+    have conv : ∀ e' m', LoadStart e' m' → m'.roots = [] → Good3 m' e' :=
+      fun e' m' s hr => ⟨s.inv, s.order, s.refs, s.ctx, s.sched, hr⟩
+    cases hr : (loadJson f false m).1 with
+    | ok roots => rw [hr] at hst; exact conv _ _ hst hroots
+    | error e => rw [hr] at hst; exact conv _ _ hst hroots
+  · cases hl : m.lastLen with
+    | none =>
+      cases hl' : (loadJson f false m).2.lastLen with
+      | none => rfl
+      | some k =>
+        have := L.switch (by rw [hl']; rfl)
+        rw [hl] at this; cases this
+    | some k =>
+      have h2 : 2 ≤ m.nvars := hsafe (by rw [hl]; rfl)
+      have := L.switchKept (Nat.le_trans h2 (declare_nvars_le _ m ext h.loadStart))
+      rw [this, hl]
+
 /-- the JSON loader never lets the internal reordering signal escape -/
-theorem loadJson_noSignal5 (m : Mgr) (ext : Nat → Nat) (h : Good3 m ext) (f : JsonFile)
-    (hg : m.lastLen = none ∨ 2 ≤ m.nvars) : (loadJson f false m).1 ≠ .error .needsReordering := by
-  rcases hg with hoff | h2
-  · exact loadJson_false_noSignal_off f m ext ⟨h.inv, h.order, h.exact, hoff, h.ctx⟩
-  · exact (loadJson_false_any_dyn f m ext (h.dynInv h2)).noSignal
+theorem loadJson_noSignal5 (m : Mgr) (ext : Nat → Nat) (h : Good3 m ext) (f : JsonFile) :
+    (loadJson f false m).1 ≠ .error .needsReordering :=
+  (loadJson_false_any_start f m ext h.loadStart).noSignal
 
 /-! ### `copy_vars` -/
 
@@ -396,14 +430,7 @@ theorem step5_all (m : Mgr) (ext : Nat → Nat) (op : UOp5) (h : Good3 m ext) (h
       (runOp5 op m).2.lastLen.isSome = op.switchAfter m.lastLen.isSome) := by
   cases op with
   | op o => exact ⟨step4_inv m ext o h hg, step4_heldSame m ext o h hg, step4_switch m ext o h hg⟩
-  | loadJson f =>
-    rcases hg with hoff | h2
-    · obtain ⟨a, b, c, -⟩ := loadJson_step5 m ext h f hoff
-      refine ⟨a, b, fun _ => ?_⟩
-      show (loadJson f false m).2.lastLen.isSome = m.lastLen.isSome
-      rw [c, hoff]
-    · obtain ⟨a, b, c⟩ := loadJson_step5_dyn m ext h f h2
-      exact ⟨a, b, fun _ => c⟩
+  | loadJson f => exact loadJson_step5_any m ext h f
   | copyVars src names =>
     obtain ⟨m', hrun, a, b, c, -⟩ := copyVars_step5w m ext h src names (orderOK_of_check hg.1) hg.2.1
       (varsBelow_of_check hg.2.2)
@@ -430,7 +457,7 @@ theorem step5_noSignal (m : Mgr) (ext : Nat → Nat) (op : UOp5) (h : Good3 m ex
     (runOp5 op m).1 ≠ .error .needsReordering := by
   cases op with
   | op o => exact step4_noSignal m ext o h hg
-  | loadJson f => exact mapRes_noSignal _ _ (loadJson_noSignal5 m ext h f hg)
+  | loadJson f => exact mapRes_noSignal _ _ (loadJson_noSignal5 m ext h f)
   | copyVars src names =>
     obtain ⟨m', hrun, -⟩ := copyVars_step5w m ext h src names (orderOK_of_check hg.1) hg.2.1
       (varsBelow_of_check hg.2.2)
